@@ -555,6 +555,36 @@ class LifetimeCtx:
 
         solver._iteration_step = step_w
         solver.save = save_w
+        # a point where the real code blocks on the writer is a *forced* point: if mdpax itself
+        # waits for pending writes (e.g. at the end of solve()), the plan lets the writer finish
+        mgr = getattr(solver, "checkpoint_manager", None)
+        if mgr is not None and callable(getattr(mgr, "wait_until_finished", None)):
+            o_wait = mgr.wait_until_finished
+            main_ident = SIM.main_ident
+
+            def wait_w(*a, **k):
+                import threading as _th
+
+                if _th.get_ident() == main_ident and SIM.active and not ctx.crashed:
+                    ctx.force_writer()
+                return o_wait(*a, **k)
+
+            try:
+                mgr.wait_until_finished = wait_w
+            except AttributeError:
+                pass
+
+
+def _threshold_of(solver) -> float:
+    """Stop threshold the solver uses; falls back to the documented formula if the attribute
+    is not there (a renamed internal must not turn into a harness error)."""
+    t = getattr(solver, "conv_threshold", None)
+    if t is not None:
+        return float(t)
+    eps, g = float(solver.epsilon), float(solver.gamma)
+    if type(solver).__name__ in ("RelativeValueIteration", "PeriodicValueIteration") or g == 1.0:
+        return eps
+    return eps * (1 - g) / g
 
 
 def _classify_exc(e: BaseException) -> str:
@@ -738,7 +768,7 @@ def execute(plan: dict, root: str, resume: Run | None = None, only: int | None =
                         call["it1"] = int(solver.iteration)
                         call["sweeps"] = ctx.sweeps_in_call
                         call["conv_last"] = ctx.sweep_raw[-1][2] if ctx.sweeps_in_call else None
-                        call["thr"] = 0.5 if type(solver).__name__ == "PolicyIteration" else float(solver.conv_threshold)
+                        call["thr"] = 0.5 if type(solver).__name__ == "PolicyIteration" else _threshold_of(solver)
                         call["converged"] = bool(ctx.sweeps_in_call and call["conv_last"] < call["thr"])
                         call["ret"] = {
                             "values": dg(res.values),
